@@ -74,11 +74,28 @@ theorem not_mem_itoa (n : Nat) (d : Char) (hd : d.isDigit = false) : d ∉ itoa 
 
 theorem dspan_eq (s e : Nat) :
     dspan s e = if e - s = 1 then itoa s else itoa s ++ ',' :: itoa (e - 1) := by
-  simp [dspan, MdiffFmt.dspanSingle, MdiffFmt.dspanOne, MdiffFmt.dspanFst, MdiffFmt.dspanSnd]
+  -- robust against semantically equal rewrites of the extracted expressions (`omega` closes them)
+  have h1 : MdiffFmt.dspanSingle s e = true ↔ e - s = 1 := by
+    simp [MdiffFmt.dspanSingle] <;> omega
+  have h2 : MdiffFmt.dspanOne s e = s := by simp [MdiffFmt.dspanOne] <;> omega
+  have h3 : MdiffFmt.dspanFst s e = s := by simp [MdiffFmt.dspanFst] <;> omega
+  have h4 : MdiffFmt.dspanSnd s e = e - 1 := by simp [MdiffFmt.dspanSnd] <;> omega
+  unfold dspan
+  by_cases h : e - s = 1
+  · rw [if_pos (h1.mpr h), if_pos h, h2]
+  · rw [if_neg (fun k => h (h1.mp k)), if_neg h, h3, h4]; simp
 
 theorem uspan_eq (side : Line) (s e : Nat) :
     uspan side s e = if e - s = 1 then side ++ itoa s else side ++ itoa s ++ ',' :: itoa (e - s) := by
-  simp [uspan, MdiffFmt.uspanSingle, MdiffFmt.uspanOne, MdiffFmt.uspanFst, MdiffFmt.uspanSnd]
+  have h1 : MdiffFmt.uspanSingle s e = true ↔ e - s = 1 := by
+    simp [MdiffFmt.uspanSingle] <;> omega
+  have h2 : MdiffFmt.uspanOne s e = s := by simp [MdiffFmt.uspanOne] <;> omega
+  have h3 : MdiffFmt.uspanFst s e = s := by simp [MdiffFmt.uspanFst] <;> omega
+  have h4 : MdiffFmt.uspanSnd s e = e - s := by simp [MdiffFmt.uspanSnd] <;> omega
+  unfold uspan
+  by_cases h : e - s = 1
+  · rw [if_pos (h1.mpr h), if_pos h, h2]
+  · rw [if_neg (fun k => h (h1.mp k)), if_neg h, h3, h4]; simp
 
 theorem cutPrefix_nil (s : Line) : cutPrefix [] s = some s := by simp [cutPrefix]
 
